@@ -12,11 +12,15 @@ import real
 import xt
 from xt import PNode
 
-THEOREMS = ["XmlDiffModel.C14_strip_reindent", "XmlDiffModel.C14_flag_table", "XmlDiffModel.C14_nostrip_differs"]
+THEOREMS = ["XmlDiffModel.C14_strip_reindent", "XmlDiffModel.C14_flag_table", "XmlDiffModel.C14_nostrip_differs",
+            "XmlDiffModel.C14_stripped_reindent_empty_script", "XmlDiffModel.C14_unstripped_reindent_nonempty_script"]
 PARTIAL = {
-    "C14 (exactly-when clause on the real code)": "proved at model level: blank stripping is blind to re-indentation, the flag table, and "
-    "that the unstripped re-indented tree differs; the composition with C03 (equal trees <=> empty script) and the XML formatter's "
-    "markup-free output are decided per run by the oracle over the formatter x flag table, not by a theorem",
+    "C14 (xml formatter, real parser)": "proved at model level: blank stripping is blind to re-indentation, the flag table, and the "
+    "composition with C03 - the stripped parses of a document and of its re-indented version get the empty script in all three match "
+    "modes (C14_stripped_reindent_empty_script; oracle hypotheses of C03), the unstripped ones a non-empty script whenever the root's "
+    "indentation changed (C14_unstripped_reindent_nonempty_script). NOT proved: the XML formatter's markup-free output and that lxml's "
+    "parser implements the blank-node model (both decided per run by the oracle over the formatter x flag table and the stripBlank "
+    "correspondence)",
 }
 LEAN_MODULES = ["XmlDiffModel.Props.C14"]
 SOURCES = ["main._diff", "main.diff_texts", "main.diff_files", "formatting.DiffFormatter", "formatting.XmlDiffFormatter", "formatting.XMLFormatter"]
